@@ -251,7 +251,7 @@ def run(tier, seed):
     chain = [names.index(n) + 1 for n in chain_names if n in names]
     fam2 = ["rot", "ctrl", "embed"] if quick else ["rot", "ctrl", "embed", "noncomm", "mcm", "clifft"]
     acc2 = {(k, fams.index(f) + 1) for k in chain for f in fam2 if f in accepted.get(names[k - 1], ())}
-    g2 = gen(lib.workdir("C18", "gen2"), fams, 1 if quick else 2, acc2, chain, chain, True, acc2)
+    g2 = gen(lib.workdir("C18", "gen2"), fams, 1, acc2, chain, chain, True, acc2)
     runs.append(g2)
     h2 = [j["hist"] for j in g2.json_lines]
     for h in h2:
@@ -332,7 +332,9 @@ def run(tier, seed):
         d = by_key.setdefault(key, [0, detail, hists[i], meta["fam"], meta.get("inst"), set()])
         d[0] += 1
         d[5].add(clause)
-    viol = [Violation(key=k, detail=f"[{n} histories; components {sorted(cl)}] {d}", replay={"history": h, "family": fam, "instance": inst, "seed": seed})
+    viol = [Violation(key=k, detail=f"[{n} histories; components {sorted(cl)}] {d}",
+                      replay={"history": [dict(e, name=names[e["k"] - 1] if e["e"] == "transform" else "", family=fams[e["c"] - 1] if e["e"] == "create" else "")
+                                          for e in h], "family": fam, "instance": inst, "seed": seed})
             for k, (n, d, h, fam, inst, cl) in sorted(by_key.items())]
 
     # ---------------- evidence
@@ -382,3 +384,37 @@ def run(tier, seed):
         "indices, shots, recomputed hash, batch size; container / operator identity is recorded as mechanism only",
         "re-execution on default.qubit with a fixed device seed is deterministic for an unchanged tape",
         "each transform is called with one minimal valid-argument recipe; circuits come from %d seeded families" % len(R.FAMILIES)])
+
+
+def replay(path, tier="quick", seed=0):
+    """./check C18 --replay FILE: run the stored history again on fresh real tapes and let Trace_Heap.tla judge it."""
+    d = json.loads(open(path).read())
+    rp = d["replay"]
+    reg, _, _ = registry()
+    names = [r[0] for r in reg]
+    fams = list(R.FAMILIES)
+    h = []
+    for e in rp["history"]:
+        e = dict(e)
+        if e["e"] == "transform":
+            e["k"] = names.index(e["name"]) + 1
+        if e["e"] == "create":
+            e["c"] = fams.index(e["family"]) + 1
+        h.append(e)
+    stats = {"executions": 0, "slow": {}}
+    tr, meta = run_history(h, reg, fams, rp.get("seed", seed), stats)
+    wd = lib.workdir("C18", "replay")
+    (wd / "traces.json").write_text(json.dumps([tr]))
+    r = lib.run_tlc("Trace_Heap", lib.cfg(init="TInit", next_="TNext", constants={"NTRACES": 1}), wd, env={"TRACE_FILE": str(wd / "traces.json")}, timeout=600)
+    lib.require_ok(r, "Trace_Heap (replay)")
+    v = next(t for t in r.tuples if t[0] == "V")
+    viol = []
+    if v[2] != "ok":
+        ev = tr["events"][v[3] - 1]
+        full = meta["full"].get(v[4], [])
+        viol.append(Violation(key=d["key"], detail=f"replayed: Trace_Heap rejects event {v[3]} ({ev['e']} {ev['k']} on object {ev['on']}): component "
+                                                   f"'{v[2]}' of object {v[4]} differs from its birth value; operations at birth "
+                                                   f"{full[0]['ops'] if full else None} ; now {full[-1]['ops'] if full else None}", replay=rp))
+    return CheckResult(coverage={"states": r.distinct, "transitions": r.generated, "traces_validated_against_impl": 1, "evaluations": len(tr["events"]),
+                                 "distinct_nontrivial": 1, "rule": "replay of one stored history", "samples": [rp["history"]], "exhaustive": False},
+                       violations=viol)
